@@ -13,9 +13,10 @@
 -/
 import Pk.Model.Manager
 import Pk.Proofs.MgrLocks
+import Pk.Proofs.MgrLocksStep
 
 namespace Pk.Props.C13
-open Pk.Mgr
+open Pk.Mgr Pk.Proofs.MgrLocks
 
 /-- files held by running background jobs (with multiplicity) -/
 def jobHeld (s : St) : List Nat :=
@@ -29,12 +30,32 @@ def viewHeld (s : St) : List Nat := s.views.flatMap (·.2)
 def holders (s : St) (f : Nat) : Nat :=
   s.idx.count f + (viewHeld s).count f + (jobHeld s).count f
 
+-- ADDED: well-formedness of the view table and of the job slots.  Without it `count_step` is false
+-- for states that satisfy the three original conjuncts of `CountInv` but are not reachable:
+--  * view keys must be unique: for `views := [(0,[7]),(0,[8])], used := [(7,1),(8,1)],
+--    files := [(7,[]),(8,[])]` the event `viewRelease 0` removes both entries (`ndel`) but releases
+--    only `[7]` (`nget` finds the first), leaving `used 8 = 1` with `holders 8 = 0`;
+--  * a job slot is occupied only while its flag is set (for the import job: while the queue is
+--    non-empty): for `jImport := some (0,[7]), queue := [], used := [(7,1)], files := [(7,[])]` the
+--    event `importPcaps ["a"]` runs `startImport`, which overwrites `jImport`; the holder `[7]` is
+--    lost (`used 7 = 1`, `holders 7 = 0`).  Likewise `tag = false ∧ jTag = some (_, _, [7])` and any
+--    event that runs `startTaggingJobIfNeeded` (e.g. `convertDone`), and the same for merge/convert.
+-- All reachable states satisfy it (it holds initially and `count_step` shows it is preserved).
+/-- view keys are unique; a job slot is only occupied while the corresponding flag is set -/
+def JobsWF (s : St) : Prop :=
+  (s.views.map (·.1)).Nodup ∧
+  (s.queue = [] → s.jImport = none) ∧
+  (s.tag = false → s.jTag = none) ∧
+  (s.merge = false → s.jMerge = none) ∧
+  (s.convert = false → s.jConv = none)
+
 /-- the lock count of every file equals its number of holders; no entry with count 0 is kept;
     a file is open (and on disk) exactly while its count is positive -/
 def CountInv (s : St) : Prop :=
   (∀ f, (nget s.used f).getD 0 = holders s f) ∧
   (∀ f, nget s.used f ≠ some 0) ∧
-  (∀ f, (nget s.files f).isSome = (nget s.used f).isSome)
+  (∀ f, (nget s.files f).isSome = (nget s.used f).isSome) ∧
+  JobsWF s  -- ADDED: see the comment at `JobsWF` (counterexamples to `count_step` without it)
 
 /-- payload side condition: files created by an import or a merge are new (not known to the
     service) and pairwise distinct -/
@@ -46,14 +67,28 @@ def EvOK (s : St) : Ev → Prop
   | .mergeDone merged => FreshFiles s merged
   | _ => True
 
+/-- bridge to the generalised invariant of Pk/Proofs/MgrLocks.lean (no pending releases) -/
+theorem countInv_iff (s : St) : CountInv s ↔ CInv [] s := by
+  have hw : JobsWF s ↔ (proj s).JobsWF := by
+    simp only [JobsWF, LK.JobsWF, proj, List.isEmpty_iff, Option.map_eq_none_iff]
+  unfold CountInv CInv CInvK
+  rw [hw]
+  have hh : ∀ f, (proj s).holders f + List.count f [] = holders s f := fun f => by
+    simp only [List.count_nil, Nat.add_zero]; rfl
+  simp only [hh]
+  rfl
+
 theorem count_init (convs : List String) :
     CountInv { convs := convs, toconv := convs.map (fun c => (c, [])), cached := convs.map (fun c => (c, [])) } := by
-  sorry
+  refine ⟨fun f => ?_, fun f => ?_, fun f => ?_, ?_, ?_, ?_, ?_, ?_⟩ <;>
+    simp [holders, viewHeld, jobHeld]
 
 /-- every transition of the service loop preserves "lock count = number of holders" -/
 theorem count_step (s : St) (e : Ev) (st : Started) (h : CountInv s) (hok : EvOK s e) :
     CountInv (step s e st).1 := by
-  sorry
+  -- `hok` is not needed: the lock counts do not depend on the created files being fresh
+  have _ := hok
+  exact (countInv_iff _).2 (CInv_step s e st ((countInv_iff s).1 h))
 
 /-- run a history: events with the tagging choices the implementation made -/
 def run (s : St) : List (Ev × Started) → St
@@ -69,26 +104,59 @@ def HistOK (s : St) : List (Ev × Started) → Prop
     completions -/
 theorem count_reachable (s : St) (h : List (Ev × Started)) (hs : CountInv s) (hh : HistOK s h) :
     CountInv (run s h) := by
-  sorry
+  induction h generalizing s with
+  | nil => exact hs
+  | cons a rest ih =>
+    obtain ⟨e, st⟩ := a
+    exact ih _ (count_step s e st hs hh.1) hh.2
 
 /-- a file that anybody holds is open and on disk -/
 theorem open_while_held (s : St) (h : CountInv s) (f : Nat) (hf : 0 < holders s f) :
     (nget s.files f).isSome = true := by
-  sorry
+  rw [h.2.2.1 f]
+  apply isSome_of_getD_pos
+  rw [h.1 f]; exact hf
 
 /-- a file nobody holds any more has been closed and deleted -/
 theorem deleted_when_free (s : St) (h : CountInv s) (f : Nat) (hf : holders s f = 0) :
     nget s.files f = none := by
-  sorry
+  have h1 := h.1 f
+  have h2 := h.2.1 f
+  have h3 := h.2.2.1 f
+  rw [hf] at h1
+  cases hu : nget s.used f with
+  | none => rw [hu] at h3; simpa using h3
+  | some n =>
+    rw [hu] at h1 h2
+    simp at h1 h2
+    exact absurd h1 h2
 
 /-- at quiescence with no views the open files are exactly the served files -/
 theorem quiescent_dir_exact (s : St) (h : CountInv s) (hv : s.views = []) (hj : jobHeld s = []) (f : Nat) :
     (nget s.files f).isSome = true ↔ f ∈ s.idx := by
-  sorry
+  have h1 := h.1 f
+  have h2 := h.2.1 f
+  rw [h.2.2.1 f]
+  have hh : holders s f = s.idx.count f := by simp [holders, viewHeld, hv, hj]
+  rw [hh] at h1
+  rw [← List.count_pos_iff, ← h1]
+  cases hu : nget s.used f with
+  | none => simp
+  | some n =>
+    rw [hu] at h2
+    simp at h2 ⊢
+    omega
 
 /-! ### non-vacuity -/
 example : CountInv ({ idx := [0, 1], used := [(0, 2), (1, 1)], files := [(0, [0]), (1, [1, 2])],
                       views := [(0, [0])] } : St) := by
-  refine ⟨?_, ?_, ?_⟩ <;> intro f <;> sorry
+  refine ⟨?_, ?_, ?_, ?_⟩
+  · intro f
+    rcases f with _ | _ | f <;> simp [holders, viewHeld, jobHeld, nget_cons]
+  · intro f
+    rcases f with _ | _ | f <;> simp [nget_cons]
+  · intro f
+    rcases f with _ | _ | f <;> simp [nget_cons]
+  · refine ⟨?_, ?_, ?_, ?_, ?_⟩ <;> simp
 
 end Pk.Props.C13
